@@ -80,7 +80,7 @@ def run(rep, tier):
         # ---- who may write the status word
         for fn_name, callee, loc in scan_status_writers(db):
             cnt("writers")
-            if fn_name in (SB + "::create_sandbox", SB + "::destroy_sandbox"):
+            if fn_name in (SB + "::create_sandbox", SB + "::destroy_sandbox") or owners.reached_only_from(db, fn_name, {SB + "::create_sandbox", SB + "::destroy_sandbox"}):
                 rep.ok("R-C14-writers", fn_name, "%s on the status word" % callee, "%s | %s" % (label, loc), nontrivial=False)
             else:
                 rep.violation("R-C14-writers", fn_name + " [status write]", "%s writes the sandbox status word (%s); only create_sandbox/destroy_sandbox may" % (fn_name, callee), loc, label)
@@ -152,6 +152,18 @@ def refs_member(x, name):
     return False
 
 
+def aborts_unless(p, i0, r):
+    """is the outcome r of the compare-exchange at event i0 asserted (abort check) before the next status / list operation?"""
+    evs = p.events
+    held = {r}
+    for e in evs[i0 + 1:]:
+        if e.kind == "ASSUME" and (e.extra or {}).get("abort_check") and q.mentions(e.a, lambda x: x in held or (isinstance(x, tuple) and x[:1] in (("var",), ("tmp",)) and p.state.mem.get(x) in held)):
+            return True
+        if e.kind == "CALL" and (q.short(e.a) in ("store", "exchange", "push_back", "emplace_back", "erase") or q.short(e.a).startswith(("compare_exchange", "impl_"))):
+            return False
+    return False
+
+
 def status_calls(p):
     return [(i, e) for i, e in enumerate(p.events) if e.kind == "CALL" and e.c == STATUS]
 
@@ -174,7 +186,7 @@ def check_create(rep, db, f, inst, vals):
             return
         i0, c = cas[0]
         r = (c.extra or {}).get("ret")
-        if not any(e.kind == "ASSUME" and e.extra.get("abort_check") and q.mentions(e.a, lambda x: x == r) for e in evs[i0:i0 + 3]):
+        if not aborts_unless(p, i0, r):
             rep.violation("R-C14-writers", site(f), "failure of the NOT_CREATED->INITIALIZING compare-exchange does not abort", f["loc"], inst)
             return
         av = argvals(c)
@@ -233,7 +245,7 @@ def check_destroy(rep, db, f, inst, vals):
             return
         i0, c = cas[0]
         r = (c.extra or {}).get("ret")
-        if not any(e.kind == "ASSUME" and e.extra.get("abort_check") and q.mentions(e.a, lambda x: x == r) for e in evs[i0:i0 + 3]):
+        if not aborts_unless(p, i0, r):
             rep.violation("R-C14-writers", site(f), "failure of the CREATED->CLEANING_UP compare-exchange does not abort", f["loc"], inst)
             return
         av = argvals(c)
